@@ -42,8 +42,8 @@ var guardTable = []guardSpec{
 	{"core/rlwe.checkSizeParams", []string{"logN", "MinLogN"}, []token.Token{token.LSS}, []string{"C19"}, "ring degree below the minimum the NTT needs"},
 	{"core/rlwe.checkModuliLogSize", []string{"qi", "MaxModuliSize"}, []token.Token{token.GTR, token.LOR}, []string{"C19"}, "requested Q prime size out of range"},
 	{"core/rlwe.checkModuliLogSize", []string{"pi", "MaxModuliSize"}, []token.Token{token.GTR, token.LOR}, []string{"C19"}, "requested P prime size out of range"},
-	{"core/rlwe.CheckModuli", []string{"IsPrime(qi)"}, []token.Token{token.NOT}, []string{"C19"}, "every Q modulus must be prime"},
-	{"core/rlwe.CheckModuli", []string{"IsPrime(pi)"}, []token.Token{token.NOT}, []string{"C19"}, "every P modulus must be prime"},
+	{"core/rlwe.CheckModuli", []string{`re:IsPrime\(q\[\w+\]\)`}, []token.Token{token.NOT}, []string{"C19"}, "every Q modulus must be prime"},
+	{"core/rlwe.CheckModuli", []string{`re:IsPrime\(p\[\w+\]\)`}, []token.Token{token.NOT}, []string{"C19"}, "every P modulus must be prime"},
 	{"schemes/bgv.NewParameters", []string{"NTTFlag()"}, []token.Token{token.NOT}, []string{"C19", "C05"}, "the integer scheme requires NTT-domain ciphertexts"},
 	{"schemes/bgv.NewParameters", []string{"t", "0"}, []token.Token{token.EQL}, []string{"C19"}, "plaintext modulus must be non-zero"},
 	{"schemes/bgv.NewParameters", []string{"slices.Contains", "Q()", "t"}, nil, []string{"C19"}, "plaintext modulus must not be one of the ciphertext moduli"},
@@ -105,6 +105,7 @@ func scanGuard(c *core.Ctx) []ob {
 		// the guard may sit in the function itself or in a predicate it delegates its checks to (a function of the
 		// same package whose error/bool result it tests): those are searched too
 		bodies := []*ast.FuncDecl{fd}
+		substs := []map[string]string{nil}
 		{
 			pkgPrefix := g.fn[:strings.Index(g.fn, ".")+1]
 			ast.Inspect(fd.Body, func(nd ast.Node) bool {
@@ -126,18 +127,28 @@ func scanGuard(c *core.Ctx) []ob {
 					if !strings.HasPrefix(k, pkgPrefix) || d.Name.Name != name || d == fd || d.Type.Results == nil {
 						continue
 					}
-					rs := d.Type.Results.List
-					if t := exprString(rs[len(rs)-1].Type); t == "error" || t == "bool" {
-						bodies = append(bodies, d)
+					// the helper's parameters stand for what this call passes
+					sub := map[string]string{}
+					ai := 0
+					for _, fl := range d.Type.Params.List {
+						for _, nm := range fl.Names {
+							if ai < len(call.Args) {
+								sub[nm.Name] = exprString(call.Args[ai])
+							}
+							ai++
+						}
 					}
+					bodies = append(bodies, d)
+					substs = append(substs, sub)
 				}
 				return true
 			})
 		}
-		for _, fd := range bodies {
+		for bi, fd := range bodies {
 		if found {
 			break
 		}
+		sub := substs[bi]
 		ast.Inspect(fd.Body, func(nd ast.Node) bool {
 			is, ok := nd.(*ast.IfStmt)
 			if !ok || found {
@@ -186,6 +197,14 @@ func scanGuard(c *core.Ctx) []ob {
 			// the same through chains of such locals (totDegree := degree0 + degree1; degree0, degree1 := op0.Degree(), …):
 			// the condition with every single-definition local replaced by its definition
 			cond += " ; " + expandLocals(fd, is, is.Cond, 0)
+			if len(sub) > 0 {
+				// in a helper: the condition once more with the helper's parameters replaced by the caller's arguments
+				sc := cond
+				for pn, at := range sub {
+					sc = regexp.MustCompile(`\b`+regexp.QuoteMeta(pn)+`\b`).ReplaceAllString(sc, strings.ReplaceAll(at, "$", "$$"))
+				}
+				cond += " ; " + sc
+			}
 			for _, t := range g.tokens {
 				any := false
 				if strings.HasPrefix(t, "re:") {
